@@ -200,9 +200,12 @@ def main():
     new_viol = {}
     notes = {}
     per_plan = {}
+    clean = {}  # reaction -> {json(fault-free row): [plan indices]}
+    results_prior = {}
     try:
         for i, r in pool.map_unordered("checks.dispatch:execute", plans, deadline=deadline):
             r["_plan_index"] = i
+            results_prior[i] = [k for k in r.get("prior", []) if k is not None]
             evaluations += 1
             runs += r.get("runs", 1)
             if r.get("nontrivial"):
@@ -217,6 +220,8 @@ def main():
                 per_plan[i] = [[x.get("digest"), x.get("interleave")] for x in ss if x] + [sorted(map(str, (common.signature(v) for v in r["violations"])))]
             if r.get("sample") is not None and (len(samples) < 4 or (r.get("nontrivial") and len(samples) < 8)):
                 samples.append(r["sample"])
+            for rs, row in r.get("clean_rows") or []:
+                clean.setdefault(rs, {}).setdefault(json.dumps(row, sort_keys=True), []).append(i)
             if r.get("note"):
                 k = r["note"].split(":")[0][:60]
                 notes[k] = notes.get(k, 0) + 1
@@ -230,6 +235,31 @@ def main():
                         new_viol[sig] = (v.get("subplan") or plans[i], r, v)
             if new_viol and len(new_viol) >= 3:
                 break
+        # fault-free results of one reaction must agree across plans and worker processes; a deviating
+        # execution is re-run with the expectation attached so that the violation comes out of the worker
+        if len(new_viol) < 3:
+            for rs, variants in sorted(clean.items()):
+                if len(variants) < 2:
+                    continue
+                ranked = sorted(variants.items(), key=lambda kv: (-len(kv[1]), kv[0]))
+                major = json.loads(ranked[0][0])
+                for _, idxs in ranked[1:]:
+                    i = idxs[0]
+                    plans[i] = dict(plans[i], expect_clean={rs: major})
+                    prior = [plans[k] for k in results_prior.get(i, [])]
+                    rr = fanout.Pool(1)
+                    try:
+                        again = rr.call("checks.dispatch:execute_seq", {"plans": prior + [plans[i]]})
+                    finally:
+                        rr.close()
+                    again["_plan_index"] = i
+                    again["prior"] = results_prior.get(i, [])
+                    for v in again["violations"]:
+                        if match_finding(v, findings) is None and common.signature(v) not in new_viol:
+                            new_viol[common.signature(v)] = (plans[i], again, v)
+                    break
+                if len(new_viol) >= 3:
+                    break
         rc = 0
         for fid, (f, v) in sorted(known_seen.items()):
             print("KNOWN-FINDING: property=%s %s [%s] e.g. %s" % (prop, f["what"], fid, v["detail"][:200]))
